@@ -556,4 +556,64 @@ def lck_rebind(ctx: Ctx) -> RuleResult:
     return r
 
 
-RULES = {"LCK-REBIND": lck_rebind, "LCK-GLOBALS": lck_globals, "LCK-SET": lck_set, "LCK-PRED": lck_pred, "LCK-RESET": lck_reset, "LCK-PAIR": lck_pair}
+def lck_runfree(ctx: Ctx) -> RuleResult:
+    """No function on a run path (the DAG / executor entry points, the scheduler, ExecNode.execute) acquires a module-level lock.
+
+    The one lock of the package serialises DESCRIPTIONS. A run path that takes it (or any other process-wide lock) makes every call wait for
+    a description in progress in another thread - or deadlock with it - and serialises nodes the scheduler believes to be running in
+    parallel (they hold a pool slot while they queue on the lock)."""
+    from .own import own
+
+    r = RuleResult("LCK-RUNFREE")
+    locks: Dict[str, str] = {}
+    for mname, m in ctx.P.modules.items():
+        if mname.endswith("_twzsa_control"):
+            continue
+        for st in m.tree.body:
+            tg = st.targets[0] if isinstance(st, ast.Assign) and len(st.targets) == 1 else (st.target if isinstance(st, ast.AnnAssign) else None)
+            v = getattr(st, "value", None)
+            if isinstance(tg, ast.Name) and isinstance(v, ast.Call) and (dotted(v.func) or "").split(".")[-1] in (
+                    "Lock", "RLock", "Semaphore", "BoundedSemaphore", "Condition"):
+                locks[tg.id] = mname
+    r.ob(bool(locks), {"module-level locks": sorted(locks)})
+    r.require(bool(locks), "no module-level lock found in the package (the description lock is expected)")
+    o = own(ctx)
+    fs = list(o.reachable())
+    ex = ctx.own_method("ExecNode", "execute")
+    if ex is not None and all(f.qualname != ex.qualname for f in fs):
+        fs.append(ex)
+    from .sch import model
+
+    try:
+        m_ = model(ctx)
+        for g in [m_.fn] + [h.fn for h in m_.helpers.values()]:
+            if all(f.qualname != g.qualname for f in fs):
+                fs.append(g)
+    except Exception:
+        pass
+    r.require(len(fs) >= 20, f"only {len(fs)} functions on the run paths")
+    n_ok = 0
+    for f in fs:
+        for n in iter_own_nodes(f.node):
+            if id(n) in o.splice_nodes:
+                continue  # the description branch of DAG.__call__ runs under the lock by construction
+            exprs = []
+            if isinstance(n, (ast.With, ast.AsyncWith)):
+                for it in n.items:
+                    exprs += [x for x in ast.walk(it.context_expr) if isinstance(x, (ast.Name, ast.Attribute))]
+            elif isinstance(n, ast.Call) and isinstance(n.func, ast.Attribute) and n.func.attr == "acquire":
+                exprs = [n.func.value]
+            for e in exprs:
+                nm = (dotted(e) or "").split(".")[-1]
+                if nm in locks:
+                    r.ob(False, {"in": f.short, "acquires": nm})
+                    r.violate(f"{f.short}: a run path acquires the module-level lock '{nm}'", f.loc(n),
+                              "every call of every DAG in the process queues on it: a call made while another thread is describing a DAG "
+                              "waits for (or deadlocks with) that description, and nodes that the scheduler counts as running in parallel "
+                              "execute one after the other", norm_src(n)[:100])
+        n_ok += 1
+    r.ob(True, {"run-path functions examined": n_ok})
+    return r
+
+
+RULES = {"LCK-RUNFREE": lck_runfree, "LCK-REBIND": lck_rebind, "LCK-GLOBALS": lck_globals, "LCK-SET": lck_set, "LCK-PRED": lck_pred, "LCK-RESET": lck_reset, "LCK-PAIR": lck_pair}
